@@ -1,6 +1,7 @@
 import EinoV.Oracle.GraphCase
 import EinoV.Oracle.C02Workflow
 import EinoV.Spec.DagWF
+import EinoV.Spec.DagStatus
 
 namespace EinoV.Oracle.C02
 open Lean EinoV
@@ -24,6 +25,6 @@ def handle (c : Json) : JE Json := do
     -- (Props/C02.lean `dag_at_most_once`; `dag_wf_check_sound`)?
     let gd ← GraphCase.parseGraph g
     let r := Engine.compile GraphCase.defaultStepSlack gd
-    pure (out.setObjVal! "wf" (Json.bool (Engine.DagRun.dagWFb r)))
+    pure ((out.setObjVal! "wf" (Json.bool (Engine.DagRun.dagWFb r))).setObjVal! "wf2" (Json.bool (Engine.DagRun.dagWF2b r)))
 
 end EinoV.Oracle.C02
